@@ -63,6 +63,9 @@ def stop_decision(prev, cur, tol):
     cur = float(cur)
     if math.isnan(prev) or math.isnan(cur):
         return False
+    if tol <= 0:
+        # "relative decrease below 0" would need an increase, which the first clause excludes
+        return False
     with np.errstate(all="ignore"):
         p = np.float64(prev)
         c = np.float64(cur)
